@@ -72,6 +72,44 @@ theorem readLimited_eq : ∀ (chunks : List Bytes) (n : Nat), readLimited chunks
     · subst h0; simp
     · simp only [h0, if_false, List.flatten_cons, List.take_append, ih]
 
+theorem exchangeWithRetry_le : ∀ (n : Nat) (sc : List Char), (exchangeWithRetry n sc).1 ≤ n := by
+  intro n
+  induction n with
+  | zero => intro sc; simp [exchangeWithRetry]
+  | succ k ih =>
+    intro sc
+    unfold exchangeWithRetry
+    cases sc with
+    | nil => simp
+    | cons c rest =>
+      by_cases hc : c = 'r'
+      · simp [hc]
+      · simp only [hc, if_false]; have := ih rest; omega
+
+theorem exchangeWithRetry_ok_iff : ∀ (n : Nat) (sc : List Char),
+    (exchangeWithRetry n sc).2 = true ↔ (sc.take n).length < n ∨ 'r' ∈ sc.take n := by
+  intro n
+  induction n with
+  | zero => intro sc; simp [exchangeWithRetry]
+  | succ k ih =>
+    intro sc
+    unfold exchangeWithRetry
+    cases sc with
+    | nil => simp
+    | cons c rest =>
+      by_cases hc : c = 'r'
+      · simp [hc]
+      · have hc' : ¬ 'r' = c := fun h => hc h.symm
+        simp only [hc, if_false, List.take_succ_cons, List.length_cons, List.mem_cons, hc', false_or]
+        rw [ih rest]
+        constructor
+        · rintro (h | h)
+          · left; omega
+          · right; exact h
+        · rintro (h | h)
+          · left; omega
+          · right; exact h
+
 /-- an 8193-byte body for the oversize witness -/
 def bigBody : Bytes := List.replicate 8193 0
 theorem bigBody_length : bigBody.length = 8193 := List.length_replicate ..
